@@ -10,22 +10,9 @@ from .normalize_model import (NOFOLD, arm_for, classes_with_private_reach, field
                               is_recursion_on, parse_normalize)
 
 
-def run(an: Analysis, rep):
-    rep.explanation = (
-        "Decides that normalize is a projection onto 'every private (serialization-artefact) field at its declared default': for every "
-        "private field of every data class reachable from CodeData the arm of normalize that handles the class resets it to the "
-        "declared default (both sides constant-folded), every field whose type can reach a class with private fields is recursed "
-        "into (tuples element-wise), hence the result does not depend on the artefacts of its input and normalize is idempotent; and "
-        "that the encoder's index assignment with no override is a function of first use only. History-stability through JSON "
-        "rests additionally on C07's agreement rules and C12 (no hidden state); canonicity across table permutations additionally "
-        "on the decoder being correct for the variant (C02, not decided here)."
-    )
-    rep.rule("R06.1", "every private field reachable in the type graph is reset to its declared default", 8)
-    rep.rule("R06.2", "normalize recurses into every field whose type reaches a class with private fields", 3)
-    rep.rule("R06.3", "each arm's result satisfies the reset predicate independently of the input (projection => idempotent)", 3)
-    rep.rule("R06.4", "index assignment without override depends on first use only", 3)
-    from .common import purity
-    rep.run(purity, an, rep, "R06.P", ["normalize", "to_code", "from_code"])
+
+def reset_rules(an: Analysis, rep):
+    """R06.1 / R06.2: every private field reachable from CodeData is reset by normalize, and normalize recurses wherever such a field can sit."""
     fn, p, arms, fall_identity = parse_normalize(an)
     tg = an.tg
     dcs, has_priv, reach = classes_with_private_reach(an)
@@ -83,6 +70,26 @@ def run(an: Analysis, rep):
         ok = tarm is not None and tarm.kind == "map"
         rep.add("R06.2", f"{fn.qual}::tuple arm", ok, loc(fn.module, tarm.ret) if tarm else loc(fn.module, fn.node),
                 "tuples are normalized element-wise" if ok else "no element-wise tuple arm: blocks / nested constants are not reached")
+
+def run(an: Analysis, rep):
+    rep.explanation = (
+        "Decides that normalize is a projection onto 'every private (serialization-artefact) field at its declared default': for every "
+        "private field of every data class reachable from CodeData the arm of normalize that handles the class resets it to the "
+        "declared default (both sides constant-folded), every field whose type can reach a class with private fields is recursed "
+        "into (tuples element-wise), hence the result does not depend on the artefacts of its input and normalize is idempotent; and "
+        "that the encoder's index assignment with no override is a function of first use only. History-stability through JSON "
+        "rests additionally on C07's agreement rules and C12 (no hidden state); canonicity across table permutations additionally "
+        "on the decoder being correct for the variant (C02, not decided here)."
+    )
+    rep.rule("R06.1", "every private field reachable in the type graph is reset to its declared default", 8)
+    rep.rule("R06.2", "normalize recurses into every field whose type reaches a class with private fields", 3)
+    rep.rule("R06.3", "each arm's result satisfies the reset predicate independently of the input (projection => idempotent)", 3)
+    rep.rule("R06.4", "index assignment without override depends on first use only", 3)
+    from .common import purity
+    rep.run(purity, an, rep, "R06.P", ["normalize", "to_code", "from_code"])
+    rep.run(reset_rules, an, rep)
+    fn, p, arms, fall_identity = parse_normalize(an)
+    dcs, has_priv, reach = classes_with_private_reach(an)
     # R06.3: projection - every arm's result is built only from resets, recursion on the same field, or untouched public fields
     for arm in arms:
         if arm.kind == "map" or arm.kind == "identity":
@@ -116,6 +123,8 @@ def run(an: Analysis, rep):
     rep.run(c10.format_rules, an, SharedRules(rep, "R06.L", "line-table format constants (shared with C10's R10.*): the lines of the normal form survive to_code / from_code"))
     from . import c05
     rep.run(c05.r053, an, SharedRules(rep, "R06.D", "docstring slot (shared with C05's R05.3): normalize -> to_code -> from_code -> normalize keeps `docstring`"))
+    from . import c12
+    rep.run(c12.arg_mutation_rule, an, rep, "R06.M", ["from_json", "to_json", "normalize", "to_code"])
     from . import c07
     from .json_model import find_json_functions, load_schema
     shj = SharedRules(rep, "R06.J", "JSON codec agreement (shared with C07's R07.1/R07.3): the normal form is stable through to_json_data / from_json_data")
